@@ -31,6 +31,7 @@ import (
 	"github.com/gontainer/gontainer-helpers/v3/exporter"
 	"github.com/gontainer/gontainer-helpers/v3/grouperror"
 	"github.com/gontainer/gontainer/internal/pkg/input"
+	"github.com/gontainer/gontainer/internal/pkg/maps"
 	"github.com/gontainer/gontainer/internal/pkg/output"
 	"gopkg.in/yaml.v3"
 )
@@ -109,7 +110,8 @@ func (s *StepReadConfig) Run(i *input.Input, _ *output.Output) (err error) {
 		errs = append(errs, errors.New("could not process any files"))
 	}
 
-	for f, p := range processed {
+	for _, f := range maps.Keys(processed) {
+		p := processed[f]
 		if len(p) > 1 {
 			tmpPatterns := fmt.Sprintf("%#v", p)
 			tmpPatterns = strings.TrimPrefix(tmpPatterns, "[]string")
